@@ -41,10 +41,9 @@ def shipped():
         out = []
         base = os.path.join(core.REPO, 'tests', 'data')
         for p in sorted(glob.glob(os.path.join(base, '*.sdf.bz2')) + glob.glob(os.path.join(base, 'rand_sdf_files', '*.sdf.bz2'))):
-            try:
-                out.append((os.path.basename(p).split('.')[0], mol_from_sdf(p)))
-            except Exception:
-                pass
+            out.append((os.path.basename(p).split('.')[0], mol_from_sdf(p)))      # a shipped file that does not load fails the check
+        if len(out) < 5:
+            raise RuntimeError('shipped multi-conformer SDF files not found under %s' % base)
         _CACHE['shipped'] = out
     return _CACHE['shipped']
 
@@ -140,3 +139,40 @@ def synthetic_symmetric(rng, factor=None):
         conf.SetAtomPosition(i, Point3D(float(q[0]), float(q[1]), float(q[2])))
     m.SetProp('_Name', 'sym_%s_%.2f' % (shape, f))
     return ('%s mean=%.2fx0.1A' % (smi, f), m, conf.GetId())
+
+
+def lattice_molecule(rng):
+    """(name, mol, conf_id, mult): heavy atoms on a cubic lattice so that many interatomic distances EQUAL a shell radius
+    exactly (d = k * mult with all quantities exactly representable), plus explicit hydrogens off the lattice and, sometimes,
+    an unbonded ion.  Exact ties are decided the same way in exact and in floating-point arithmetic (<=), so they are inside
+    every property's quantifier; only a code change that perturbs retained coordinates makes them flip."""
+    from rdkit import Chem
+    from rdkit.Geometry import Point3D
+    import numpy as np
+    smi = rng.choice(['CCCC', 'CC(C)C', 'C1CCC1', 'CCOC', 'CCCCC', 'CC(C)(C)C', 'CCN(C)C'])
+    ion = rng.random() < 0.5
+    m = Chem.AddHs(Chem.MolFromSmiles(smi + ('.[Cl-]' if ion else '')))
+    step = rng.choice([1.5, 0.75])
+    mult = step if rng.random() < 0.7 else 2 * step
+    conf = Chem.Conformer(m.GetNumAtoms())
+    # half of the molecules straddle the origin: there |p - centroid| > |centroid| for some atoms, the regime in which
+    # re-centring coordinates is inexact in floating point (Sterbenz); the others sit far from it
+    if rng.random() < 0.5:
+        origin = -step * np.array([1.0, 1.0, 0.5]) + np.array([rng.choice([0.0, 0.0, step]) for _ in range(3)])
+    else:
+        origin = np.array([rng.choice([0.0, 0.75, 12.0, -7.5, 31.5]) for _ in range(3)])
+    heavy = [a.GetIdx() for a in m.GetAtoms() if a.GetAtomicNum() > 1]
+    cells = [(i, j, k) for i in range(3) for j in range(3) for k in range(2)]
+    rng.shuffle(cells)
+    pos = {}
+    for idx, cell in zip(heavy, cells):
+        pos[idx] = origin + step * np.array(cell, dtype=float)
+    for a in m.GetAtoms():
+        if a.GetAtomicNum() == 1:
+            parent = a.GetNeighbors()[0].GetIdx()
+            pos[a.GetIdx()] = pos[parent] + np.array([rng.uniform(-0.9, 0.9) for _ in range(3)])
+    for i, p in pos.items():
+        conf.SetAtomPosition(i, Point3D(float(p[0]), float(p[1]), float(p[2])))
+    m.AddConformer(conf, assignId=True)
+    m.SetProp('_Name', 'lattice')
+    return ('lattice %s step %.2f mult %.2f%s' % (smi, step, mult, ' +Cl-' if ion else ''), m, 0, mult)
